@@ -52,6 +52,7 @@ CaseRec(fam, prog, regs0, img, memSize, fin, focusRegs, focusAddrs, tags, extra)
     exp |-> [ status |-> fin.status, regs |-> IntRegs(fin.regs), mem |-> fin.mem, n |-> fin.n,
               cyc1 |-> fin.cyc1, cyc2 |-> fin.cyc2,
               cyc4 |-> IF Cyc4On /\ fin.n <= Cyc4MaxN THEN Cyc4(prog, fin) ELSE -1,
+              cyc5 |-> IF Cyc4On /\ fin.n <= Cyc4MaxN THEN Cyc5(prog, fin) ELSE -1,
               \* MVP-3 writes every resident data line back when the run ends
               cyc3 |-> fin.cyc3 + LatMem * Len(fin.l1d3), pcs |-> [k \in 1 .. Len(fin.ev) |-> fin.ev[k].i],
               addrs |-> [k \in 1 .. Len(fin.ev) |-> fin.ev[k].a] ],
